@@ -15,7 +15,7 @@ use crate::util::{all_strings, J};
 
 pub struct C19;
 
-const LADDER: [&str; 27] = [
+const LADDER: [&str; 29] = [
     "(?:(a)|b)b*\\1b",
     "(a)?b+\\1b",
     "(a)*[bc]*\\1b",
@@ -45,11 +45,15 @@ const LADDER: [&str; 27] = [
     "^(a*)\\1{2}b$",
     "^(?:(a)|b)\\1{2}c$",
     "^(a)\\1{2}$",
+    // a two-digit reference written inside two groups that are still open
+    "^(a)(b)(c)(d)(e)(f)(g)(h)((x([ij])\\11))$",
+    "(a)(b)(c)(d)(e)(f)(g)(h)(i)((j)\\11)",
 ];
-const LADDER_INPUTS: [&str; 36] = [
+const LADDER_INPUTS: [&str; 40] = [
     "bbb", "bb", "bcc", "cb", "abcab", "abcb", "aabb", "aAbB", "xx-yy.", "abab", "bab", "aaa",
     "abcdefghijj", "abcdefghija0", "abcdefghijaj", "abcdefghia0", "abcdefghijkk", "abcdefghijka2", "aa1", "abba", "abab", "abcdefghijj0", "aax", "abcdefghija",
     "k\u{212a}", "\u{212a}k", "s\u{17f}", "\u{17f}S", "MASS-ma\u{17f}s", "ma\u{17f}s-MASS", "b", "bc", "aaa", "aab", "aaaab", "abaac",
+    "abcdefghxii", "abcdefghxia1", "abcdefghijj", "abcdefghija1",
 ];
 
 fn space_for(tier: Tier) -> (Space, usize) {
